@@ -157,6 +157,8 @@ pub(crate) fn rem(lhs: &Value, rhs: &Value) -> TeraResult<Value> {
             let val = match (left, right) {
                 (Number::Integer(a), Number::Integer(b)) => match a.checked_rem_euclid(b) {
                     Some(val) => Value::from(val),
+                    // `i128::MIN % -1` overflows inside checked_rem_euclid but the remainder is 0
+                    None if b == -1 => Value::from(0i128),
                     None => {
                         return Err(Error::message(format!("Unable to perform {lhs} % {rhs}")));
                     }
